@@ -199,6 +199,7 @@ def get_units():
     for kind in ('socket', 'ascii', 'binary', 'rtu'):
         us.append(Unit('%s/two_frames.%s' % (PROP, kind), two_frames(kind), [PROP], contracts=CS, unroll={(F.QUAL[kind] + '.processIncomingPacket', 0): 3},
                        functions=[F.QUAL[kind] + '.processIncomingPacket'], twin=twin_inputs(kind, ('a_', 'b_'))))
+        us[-1].unwind = True      # two frames need at most three iterations: going past the bound is itself an obligation
         unroll = {(F.QUAL[kind] + '.processIncomingPacket', 0): 1}
         fns = [F.QUAL[kind] + '.' + m for m in ('processIncomingPacket', 'checkFrame', 'isFrameReady', 'advanceFrame', 'getFrame')]
         us.append(Unit('%s/step.%s' % (PROP, kind), step(kind), [PROP], contracts=CS, unroll=unroll, functions=fns, twin=twin_inputs(kind)))
